@@ -790,6 +790,99 @@ def rule_G(ck, units, floor=20, only=None):
                 ck.ob('G.no-throw-in-parallel-region', '%s|%s|region#%d' % (f.rel(), '::'.join(f.q.split('::')[-2:]), k), f.where(r.node), not det, det)
 
 
+def rule_H(ck, units, floor=3):
+    """H.count-fill-agree (sa/twopass.py): in a two-pass CRS assembly the counting pass (++M.ptr[i + 1]) and the filling pass
+    (M.col[head] = ...) select the same entries - compared as boolean formulas over the atoms they test, for all truth values and all
+    orderings of the compared operands.  Passes that count distinct columns through a marker array are not of this shape and are skipped."""
+    import twopass
+    ck.rule('H.count-fill-agree', 'two-pass CRS assembly: the counting pass and the filling pass select the same entries (selection predicates compared as boolean formulas over '
+                                  'their atoms for every truth value / ordering of compared operands; marker-based passes excluded)', floor)
+    seen = set()
+    for u in units.values():
+        for f in u.funcs:
+            if f.body is None or not f.rel().startswith('amgcl/') or (f.file, f.line) in seen:
+                continue
+
+            def mroot(e):
+                ap = ir.access_path(e)
+                return (ap[0], ap[1], ap[2][:-1]) if ap is not None and ap[2] else None
+            counts, fills = {}, {}
+            for n in f.nodes.values():
+                if n['k'] == 'un' and n['op'] == '++':
+                    e = unwrap(n['e'])
+                    if e is not None and e['k'] == 'idx':
+                        ap = ir.access_path(e)
+                        ix = unwrap(e['x'])
+                        if ap is not None and ap[2] and ap[2][-1] == 'ptr' and ix is not None and ix['k'] == 'bin' and ix['op'] == '+' and unwrap(ix['y'])['k'] == 'lit' and unwrap(ix['y']).get('v') == '1':
+                            counts.setdefault(mroot(e), []).append(n)
+                elif n['k'] == 'bin' and n['op'] == '=':
+                    e = unwrap(n['x'])
+                    if e is not None and e['k'] == 'idx':
+                        ap = ir.access_path(e)
+                        if ap is not None and ap[2] and ap[2][-1] == 'col':
+                            fills.setdefault(mroot(e), []).append(n)
+            for root in sorted(set(counts) & set(fills), key=str):
+                cs, fs = counts[root], fills[root]
+
+                def row_loop(n):
+                    loops = [a for a in f.ancestors(n) if a['k'] in ('for', 'while', 'rfor', 'do')]
+                    return loops[-1] if loops else None
+                if any(row_loop(n) is None for n in cs + fs):
+                    continue
+                # marker-based passes: the selection depends on a scratch array that the pass itself updates
+                def uses_marker(n):
+                    rl = row_loop(n)
+                    written = set()
+                    for m in walk(rl):
+                        if m['k'] == 'bin' and m['op'] == '=' and unwrap(m['x'])['k'] == 'idx':
+                            ap = ir.access_path(m['x'])
+                            if ap is not None and not ap[2] and ap[0] == 'var':
+                                written.add(ap[1])
+                    for a in f.ancestors(n):
+                        if a is rl:
+                            break
+                        if a['k'] == 'if' and any(x['k'] == 'ref' and x['d'] in written for x in walk(a['c'])):
+                            return True
+                    return False
+                if any(uses_marker(n) for n in cs + fs):
+                    continue
+                # rows are counted where they are built: the index of every count is <row loop variable> + 1 (a scatter / transpose that
+                # counts by column is another shape)
+                def counts_own_row(n):
+                    rl = row_loop(n)
+                    ix = unwrap(unwrap(n['e'])['x'])
+                    base = unwrap(ix['x'])
+                    if base is None or base['k'] != 'ref':
+                        return False
+                    ivs = set()
+                    if rl.get('init') is not None:
+                        ivs = {v['d'] for d in walk(rl['init']) if d['k'] == 'decl' for v in d['v']}
+                    if rl['k'] == 'rfor' and rl.get('var'):
+                        ivs.add(rl['var']['d'])
+                    # ... or a per-row local derived inside the row loop (`iu = idx[i]`)
+                    ivs |= {v['d'] for d in walk(rl['b']) if d['k'] == 'decl' for v in d['v']
+                            if not any(a['k'] in ('for', 'while', 'rfor', 'do') and a is not rl for a in f.ancestors(d) if a['i'] > rl['i'])}
+                    return base['d'] in ivs
+                if not all(counts_own_row(n) for n in cs):
+                    continue
+                seen.add((f.file, f.line))
+                # aliases: X[i] = (x op= ...) / X[i] = x  : the array element and the local hold the same value afterwards
+                alias = {}
+                for m in f.nodes.values():
+                    if m['k'] == 'bin' and m['op'] == '=' and unwrap(m['x'])['k'] == 'idx':
+                        y = unwrap(m['y'])
+                        while y is not None and y['k'] == 'bin' and y['op'] in ('*=', '+=', '-=', '/=', '='):
+                            y = unwrap(y['x'])
+                        if y is not None and y['k'] == 'ref' and f.decl(y['d']).get('k') == 'local':
+                            alias[y['n']] = twopass._norm_text(f, m['x'], {})
+                diffs = twopass.compare(f, [(n, row_loop(n)) for n in cs], [(n, row_loop(n)) for n in fs], alias)
+                mname = '.'.join(str(x) for x in root[2]) or (f.decl(root[1])['n'] if root[0] == 'var' else 'this')
+                key = '%s|%s|%s' % (f.rel(), '::'.join(f.q.split('::')[-2:]), mname if root[0] != 'var' else f.decl(root[1])['n'] + ('.' + mname if root[2] else ''))
+                ok = not diffs
+                ck.ob('H.count-fill-agree', key, f.where(cs[0]), ok, '' if ok else
+                      'the counting pass (%s) and the filling pass (%s) disagree %s' % (f.where(cs[0]), f.where(fs[0]), '; '.join('%s level: %s' % d for d in diffs[:2])))
+
+
 def main(tier):
     ck = Check('C10', tier, 'C10 (clauses): raw-allocated arrays are completely filled; arrays are freed only by their owner; empty_level never escapes the hierarchy construction.')
     T = os.path.join(ir.VERIF, 'tus')
@@ -804,6 +897,7 @@ def main(tier):
     rule_E(ck, units, floor=3 if tier == 'quick' else 3)
     rule_F(ck, units)
     rule_G(ck, units)
+    rule_H(ck, units)
     # outputs are a function of the inputs only: the multigrid cycle does not read what an earlier application left in
     # its per-level scratch vectors (rules shared with C02)
     import c02
